@@ -1,26 +1,672 @@
-//! C16 - not built yet.
-use crate::engine::{PropertyInfo, RunCtx};
+//! C16 - rename preserves program meaning and is reversible.
+//!
+//! Generator (`c16/gen.rs`): multi-file error-free projects (types, functions, function
+//! blocks with methods, namespaces, CONFIGURATION with VAR_GLOBAL, programs with
+//! VAR_EXTERNAL) with overlapping name pools and a model of every identifier occurrence.
+//! A case = project + one identifier token (uniform over all identifier tokens) + a new
+//! name (fresh / outer / inner / global / other-existing / case variant / keyword /
+//! invalid / standard function) + an input trace.
+//! Oracle (`c16/core.rs`): rename refuses, or its edits are in bounds, on char boundaries,
+//! disjoint, each one identifier token equal to the old name; a fresh Database reports the
+//! same diagnostics up to the name; both projects compile and produce the same states over
+//! the trace modulo the name; renaming back restores the sources byte for byte.
+
+use proptest::prelude::*;
+use serde::{Deserialize, Serialize};
+use serde_json::json;
+
+use crate::engine::tape::{tape_strategy, Reader, Tape};
+use crate::engine::{catch, Probe, PropertyInfo, RunCtx};
+
+#[path = "c16/core.rs"]
+pub mod core;
+#[path = "c16/gen.rs"]
+pub mod gen;
 
 pub fn info() -> PropertyInfo {
     PropertyInfo {
         id: "C16",
         level: "exploration",
-        rule: "not built yet",
-        assumptions: &[],
-        workers_quick: 1,
-        workers_thorough: 1,
+        rule: "case = generated 1-3 file project (types, functions, function blocks with methods, namespaces, CONFIGURATION with VAR_GLOBAL, programs with VAR_EXTERNAL; overlapping name pools; error-free by a fresh Database and compilable by TestHarness::from_sources, else discarded and counted) + identifier token chosen uniformly over all identifier tokens of the project + new name from {fresh, outer-scope, inner-scope, global, other existing, case variant, keyword, invalid, standard function} + 3-5 cycle input trace on %IW0/%IW2/%IX4.0; non-trivial = the project was error-free AND (the symbol has >= 2 occurrences, or occurrences in >= 2 files, or the new name already exists in the project); distinct by SHA-256 of sources + position + new name",
+        assumptions: &[
+            "behaviour = the complete variable storage (globals, program and FB instances, structs, enums) after initialisation and after every cycle of a 3-5 cycle trace, plus the cycle errors; function/method locals are observed only through the values they flow into",
+            "behaviour is not compared (diagnostics, compilability and rename-back still are) for projects whose references deliberately differ in case from the declaration, for case-only renames, and when the error-free original already faults with Undefined* at run time: open runtime findings (F4 family, recorded for C01) make the runtime's name lookup depend on spelling",
+            "generator steers around three open runtime findings (counted as excluded): FB instance names are distinct from FUNCTION names, FUNCTIONs are not declared in namespaces, renames to the name of a configuration element are not judged",
+            "all scalar data is INT with typed literals and exact-type assignments (finding F8); no arrays, pointers, properties, interfaces/inheritance, actions, USING directives",
+            "a refusal is always accepted (the property allows it); rename-back must be accepted and restore the text byte for byte",
+        ],
+        workers_quick: 8,
+        workers_thorough: 16,
         address_space_limit: 0,
-        watchdog_quick_s: 600,
-        watchdog_thorough_s: 3600,
+        watchdog_quick_s: 900,
+        watchdog_thorough_s: 7200,
         run,
     }
 }
 
+#[derive(Clone, Debug, Serialize, Deserialize)]
+pub struct Case {
+    pub files: Vec<String>,
+    pub file: usize,
+    /// byte offset inside the chosen identifier token
+    pub offset: usize,
+    /// spelling of the chosen token
+    pub old_name: String,
+    /// spelling of the symbol's declaration (what rename-back restores); == old_name when unknown
+    pub decl_name: String,
+    pub new_name: String,
+    pub name_class: String,
+    pub trace: Vec<(i16, i16, bool)>,
+    /// model facts (labels and known-finding shapes)
+    pub kind: String,
+    pub role: String,
+    pub roles: Vec<String>,
+    pub n_occ: usize,
+    pub n_files: usize,
+    pub new_name_exists: bool,
+    pub case_variants: bool,
+    /// names of configuration elements (configuration, resource, task, program instances)
+    #[serde(default)]
+    pub config_names: Vec<String>,
+    /// names of FUNCTIONs and of FB instances (runtime finding: instance call vs function name)
+    #[serde(default)]
+    pub function_names: Vec<String>,
+    #[serde(default)]
+    pub instance_names: Vec<String>,
+    /// shapes the generator steered around while building the project
+    #[serde(default)]
+    pub gen_excluded: Vec<String>,
+    /// for a member of a function block: the block's name; for a function block: its members
+    #[serde(default)]
+    pub owner_name: String,
+    #[serde(default)]
+    pub member_names: Vec<String>,
+}
+
+pub fn case_from_tape(tape: &Tape) -> Case {
+    let mut r = Reader::new(tape);
+    // selectors first, so that a short tape still chooses position and name freely
+    let sel_tok = r.word();
+    let sel_inner = r.word();
+    let class = r.weighted(&[3, 3, 3, 3, 3, 2, 1, 1, 1, 2]);
+    let sel_name = r.word();
+    let ncycles = 3 + r.pick(3);
+    let trace: Vec<(i16, i16, bool)> = (0..ncycles).map(|_| (r.pick(10) as i16, r.pick(10) as i16, r.flag())).collect();
+    let pick_w = |w: u32, n: usize| -> usize { if n <= 1 { 0 } else { ((w as u64 * n as u64) >> 32) as usize } };
+    let p = gen::generate(&mut r);
+    // every identifier token (Ident tokens and the name part of `Type#` prefixes)
+    let mut toks: Vec<(usize, usize, usize)> = Vec::new();
+    for (fi, f) in p.files.iter().enumerate() {
+        let mut t = core::ident_tokens(f);
+        t.extend(core::prefix_tokens(f));
+        t.sort();
+        for (s, e) in t {
+            toks.push((fi, s, e));
+        }
+    }
+    if toks.is_empty() {
+        toks.push((0, 0, 0));
+    }
+    let (file, s, e) = toks[pick_w(sel_tok, toks.len())];
+    let old_name = p.files[file].get(s..e).unwrap_or("").to_string();
+    let inner = if e > s { pick_w(sel_inner, e - s) } else { 0 };
+    let occ = p.occs.iter().find(|o| o.file == file && o.start == s && o.end == e);
+    let (kind, role, decl_name, scope, sym) = match occ {
+        Some(o) => (
+            p.syms[o.sym].kind.clone(),
+            o.role.clone(),
+            p.syms[o.sym].name.clone(),
+            Some(p.syms[o.sym].scope),
+            Some(o.sym),
+        ),
+        None => ("unmodelled".to_string(), "unmodelled".to_string(), old_name.clone(), None, None),
+    };
+    let sym_occs: Vec<&gen::Occ> = match sym {
+        Some(sy) => p.occs.iter().filter(|o| o.sym == sy).collect(),
+        None => Vec::new(),
+    };
+    let mut roles: Vec<String> = sym_occs.iter().map(|o| o.role.clone()).collect();
+    roles.sort();
+    roles.dedup();
+    let mut fileset: Vec<usize> = sym_occs.iter().map(|o| o.file).collect();
+    fileset.sort();
+    fileset.dedup();
+
+    // new name
+    let names_in = |scopes: &[usize]| -> Vec<String> {
+        let mut v: Vec<String> = Vec::new();
+        for sc in scopes {
+            for (_, id) in &p.scopes[*sc].names {
+                let n = p.syms[*id].name.clone();
+                if !n.eq_ignore_ascii_case(&decl_name) && !v.contains(&n) {
+                    v.push(n);
+                }
+            }
+        }
+        v
+    };
+    let ch = |v: &[String]| -> String { v[pick_w(sel_name, v.len())].clone() };
+    let chs = |v: &[&str]| -> String { v[pick_w(sel_name, v.len())].to_string() };
+    let (mut name_class, mut new_name): (&str, String) = match class {
+        0 => ("fresh", chs(gen::FRESH)),
+        1 => {
+            let v = scope.map(|s| names_in(&p.ancestors(s))).unwrap_or_default();
+            if v.is_empty() { ("fresh", "zz9".to_string()) } else { ("outer", ch(&v)) }
+        }
+        2 => {
+            let v = scope.map(|s| names_in(&p.descendants(s))).unwrap_or_default();
+            if v.is_empty() { ("fresh", "zz9".to_string()) } else { ("inner", ch(&v)) }
+        }
+        3 => {
+            // global-level names and VAR_GLOBALs
+            let gl: Vec<usize> = (0..p.scopes.len())
+                .filter(|s| matches!(p.scopes[*s].kind, "global" | "configuration" | "namespace"))
+                .collect();
+            let v = names_in(&gl);
+            if v.is_empty() { ("fresh", "zz9".to_string()) } else { ("global", ch(&v)) }
+        }
+        4 => {
+            let all: Vec<usize> = (0..p.scopes.len()).collect();
+            let v = names_in(&all);
+            if v.is_empty() { ("fresh", "zz9".to_string()) } else { ("existing", ch(&v)) }
+        }
+        5 => {
+            let up = decl_name.to_ascii_uppercase();
+            let v = if up != decl_name { up } else { decl_name.to_ascii_lowercase() };
+            if v == decl_name { ("fresh", "zz9".to_string()) } else { ("case", v) }
+        }
+        6 => ("keyword", chs(gen::KEYWORDS)),
+        7 => ("invalid", chs(gen::INVALID)),
+        8 => ("stdfn", chs(gen::STDFN)),
+        _ => ("fresh", chs(gen::FRESH)),
+    };
+    if new_name == decl_name && name_class != "case" {
+        name_class = "fresh";
+        new_name = "zz9".to_string();
+    }
+    let new_name_exists = p.syms.iter().any(|s| s.name.eq_ignore_ascii_case(&new_name) && !s.name.eq_ignore_ascii_case(&decl_name));
+
+    Case {
+        files: p.files.clone(),
+        file,
+        offset: s + inner,
+        old_name,
+        decl_name,
+        new_name,
+        name_class: name_class.to_string(),
+        trace,
+        kind,
+        role,
+        roles,
+        n_occ: sym_occs.len(),
+        n_files: fileset.len(),
+        new_name_exists,
+        case_variants: p.case_variants,
+        config_names: p
+            .syms
+            .iter()
+            .filter(|s| matches!(s.kind.as_str(), "configuration" | "resource" | "task" | "program_instance"))
+            .map(|s| s.name.clone())
+            .collect(),
+        function_names: p.syms.iter().filter(|s| s.kind == "function").map(|s| s.name.clone()).collect(),
+        instance_names: p.syms.iter().filter(|s| s.kind == "fb_instance").map(|s| s.name.clone()).collect(),
+        owner_name: scope
+            .and_then(|sc| p.fb_scopes.iter().find(|(s, _)| *s == sc))
+            .map(|(_, fb)| p.syms[*fb].name.clone())
+            .unwrap_or_default(),
+        member_names: sym
+            .and_then(|sy| p.fb_scopes.iter().find(|(_, fb)| *fb == sy))
+            .map(|(sc, _)| p.scopes[*sc].names.iter().map(|(_, id)| p.syms[*id].name.clone()).collect())
+            .unwrap_or_default(),
+        gen_excluded: {
+            let mut v = Vec::new();
+            if p.avoided_instance_names > 0 {
+                v.push("C16-runtime-instance-call-runs-function-of-same-name".to_string());
+            }
+            if p.avoided_ns_functions > 0 {
+                v.push("C16-runtime-namespaced-function-result-write".to_string());
+            }
+            v
+        },
+    }
+}
+
+/// Shapes of open known findings a case falls into (by the model), in priority order.
+/// Each key is the key of an entry in known_findings.d/C16.json; the exclusion is active
+/// only while that entry is open.
+pub fn shapes(c: &Case) -> Vec<&'static str> {
+    let mut v = Vec::new();
+    let has = |r: &str| c.roles.iter().any(|x| x == r);
+    if has("named_arg") {
+        v.push("C16-named-argument-not-a-reference");
+    }
+    if c.kind == "enum_type" && has("enum_qual") {
+        v.push("C16-enum-qualifier-not-a-reference");
+    }
+    if c.kind == "enum_value" {
+        v.push("C16-enum-value-literal-not-a-reference");
+    }
+    if c.kind == "program" && has("program_type_ref") {
+        v.push("C16-configuration-program-type-not-a-reference");
+    }
+    if c.kind == "task" && has("task_ref") {
+        v.push("C16-configuration-task-not-a-reference");
+    }
+    if c.kind == "namespace" {
+        v.push("C16-namespace-rename");
+    }
+    if has("ns_call") || has("ns_type_ref") {
+        v.push("C16-namespace-qualified-use-not-a-reference");
+    }
+    let is_in = |list: &[String]| list.iter().any(|n| n.eq_ignore_ascii_case(&c.new_name));
+    if (c.kind == "function" && is_in(&c.instance_names))
+        || (c.kind == "fb_instance" && (is_in(&c.function_names) || c.name_class == "stdfn"))
+    {
+        v.push("C16-runtime-instance-call-runs-function-of-same-name");
+    }
+    if matches!(c.kind.as_str(), "global_var" | "fb" | "function" | "program" | "struct_type" | "enum_type" | "enum_value")
+        && c.config_names.iter().any(|n| n.eq_ignore_ascii_case(&c.new_name)) {
+        v.push("C16-new-name-of-configuration-element");
+    }
+    v
+}
+
+fn truncate(s: &str, n: usize) -> String {
+    if s.len() <= n {
+        return s.to_string();
+    }
+    let mut end = n;
+    while !s.is_char_boundary(end) {
+        end -= 1;
+    }
+    format!("{}...[{} bytes]", &s[..end], s.len())
+}
+
+pub fn check_case(c: &Case, probe: &mut Probe, open: &dyn Fn(&str) -> bool) -> Result<(), String> {
+    if c.files.is_empty() || c.file >= c.files.len() || c.offset > c.files[c.file].len() {
+        probe.label("discard=malformed_case");
+        return Ok(());
+    }
+    let d0 = core::diagnostics(&c.files);
+    if core::has_errors(&d0) {
+        probe.label("discard=not_error_free");
+        if let Some(d) = d0.iter().find(|d| d.severity == "error") {
+            probe.label(format!("discard_code={}", d.code));
+        }
+        return Ok(());
+    }
+    let r0 = match core::execute(&c.files, &c.trace) {
+        Ok(r) => r,
+        Err(e) => {
+            probe.label("discard=not_compilable");
+            probe.label(format!("discard_compile={}", truncate(e.lines().next().unwrap_or(""), 60)));
+            return Ok(());
+        }
+    };
+    for g in &c.gen_excluded {
+        probe.excluded(format!("{g} (generator re-drew a name)"));
+    }
+    probe.label(format!("files={}", c.files.len()));
+    probe.label(format!("kind={}", c.kind));
+    probe.label(format!("role={}", c.role));
+    probe.label(format!("newname={}", c.name_class));
+    probe.label(if c.n_occ >= 2 { "occurrences>=2" } else { "occurrences<2" });
+    if c.n_files >= 2 {
+        probe.label("cross_file");
+    }
+    if c.new_name_exists {
+        probe.label("newname_exists_elsewhere");
+    }
+    if c.case_variants {
+        probe.label("project_has_case_variant_references");
+    }
+    if r0.errors.iter().any(|e| !e.is_empty()) {
+        probe.label("original_faults_at_runtime");
+    }
+    let mut key = Vec::new();
+    for f in &c.files {
+        key.extend_from_slice(f.as_bytes());
+        key.push(0);
+    }
+    key.extend_from_slice(format!("{}:{}:{}", c.file, c.offset, c.new_name).as_bytes());
+    if c.n_occ >= 2 || c.n_files >= 2 || c.new_name_exists {
+        probe.nontrivial(&key);
+        probe.sample(json!({
+            "kind": c.kind, "role": c.role, "old": c.old_name, "new": c.new_name, "class": c.name_class,
+            "occurrences": c.n_occ, "files_with_occurrences": c.n_files,
+            "file0": truncate(&c.files[0], 400),
+        }));
+    }
+
+    // rename must not panic, whatever the name is
+    let res = catch(|| core::do_rename(&c.files, c.file, c.offset, &c.new_name))
+        .map_err(|p| format!("rename panicked: {p}"))?;
+    let Some(edits) = res else {
+        probe.label("outcome=refused");
+        probe.label(format!("refused:newname={}", c.name_class));
+        return Ok(());
+    };
+    let n_edits: usize = edits.values().map(|v| v.len()).sum();
+    if n_edits == 0 {
+        probe.label("outcome=accepted_no_edits");
+    }
+    // known-finding shapes are excluded by construction (counted), while the entry is open
+    for s in shapes(c) {
+        if open(s) {
+            probe.excluded(s);
+            probe.label("outcome=excluded_known_shape");
+            return Ok(());
+        }
+    }
+    probe.label("outcome=accepted");
+    probe.label(format!("accepted:newname={}", c.name_class));
+    let ctx = |what: String| -> String {
+        format!(
+            "{what}\n  rename of {:?} ({} / {}) at file {} offset {} to {:?} [{}]; edits: {:?}",
+            c.old_name, c.kind, c.role, c.file, c.offset, c.new_name, c.name_class, edits
+        )
+    };
+    core::check_edits(&c.files, &edits, &c.old_name, &c.new_name).map_err(&ctx)?;
+    let (nf, shifted) = core::apply_edits(&c.files, &edits, c.file, c.offset);
+    let d1 = core::diagnostics(&nf);
+    core::compare_diags(&c.files, &d0, &nf, &d1, &c.old_name, &c.new_name).map_err(&ctx)?;
+    match core::execute(&nf, &c.trace) {
+        Err(e) => {
+            return Err(ctx(format!(
+                "the renamed project no longer compiles with TestHarness::from_sources: {}",
+                truncate(&e, 300)
+            )))
+        }
+        Ok(r1) => {
+            if c.case_variants {
+                probe.label("behaviour=skipped_case_variants");
+            } else if r0.errors.iter().flatten().any(|e| e.starts_with("Undefined")) {
+                // the error-free original already faults on a name lookup at run time (open
+                // runtime findings of the F4 family); what it does depends on spelling
+                probe.excluded("C16-runtime-names-case-sensitive (original faults with Undefined* at run time; behaviour not compared)");
+                probe.label("behaviour=skipped_original_faults_on_name_lookup");
+            } else if c.name_class == "case" && open("C16-runtime-names-case-sensitive") {
+                // the runtime's storage and call resolution are case-sensitive (F4): a name
+                // that differs from another one only in case changes what the runtime finds
+                probe.excluded("C16-runtime-names-case-sensitive (behaviour not compared for a case-only rename)");
+                probe.label("behaviour=skipped_case_only_rename");
+            } else {
+                core::compare_runs(&r0, &r1, &c.old_name, &c.new_name)
+                    .map_err(|e| ctx(format!("behaviour differs after the rename: {e}")))?;
+                probe.label("behaviour=compared");
+            }
+        }
+    }
+    // rename back at the shifted position
+    let back = catch(|| core::do_rename(&nf, c.file, shifted, &c.decl_name))
+        .map_err(|p| ctx(format!("rename back panicked: {p}")))?;
+    let Some(back) = back else {
+        return Err(ctx(format!(
+            "renaming back to {:?} at the shifted position {} is refused",
+            c.decl_name, shifted
+        )));
+    };
+    core::check_edits(&nf, &back, &c.new_name, &c.decl_name).map_err(|e| ctx(format!("rename back: {e}")))?;
+    let (bf, _) = core::apply_edits(&nf, &back, c.file, shifted);
+    let same = if c.case_variants {
+        bf.len() == c.files.len() && bf.iter().zip(&c.files).all(|(a, b)| a.eq_ignore_ascii_case(b))
+    } else {
+        bf == c.files
+    };
+    if !same {
+        let which = bf.iter().zip(&c.files).position(|(a, b)| a != b).unwrap_or(0);
+        return Err(ctx(format!(
+            "renaming back to {:?} does not restore the original text (file {which} differs; back edits {:?})",
+            c.decl_name, back
+        )));
+    }
+    probe.label("rename_back=restored");
+    Ok(())
+}
+
 /// Helper subcommands (child processes of this check); None = not mine.
-pub fn helper(_args: &[String]) -> Option<i32> {
-    None
+/// `tpv c16-probe <new-name> <file-index> <needle> <nth> <file.st>...` runs the oracle by hand.
+/// `tpv c16-gen <seed-word>...` prints a generated project.
+pub fn helper(args: &[String]) -> Option<i32> {
+    match args.first().map(|s| s.as_str()) {
+        Some("c16-probe") => Some(probe_cmd(args)),
+        Some("c16-at") => Some(at_cmd(args)),
+        Some("c16-tree") => {
+            let text = std::fs::read_to_string(&args[1]).unwrap();
+            println!("{:#?}", trust_syntax::parser::parse(&text).syntax());
+            Some(0)
+        }
+        Some("c16-mkcase") => Some(mkcase_cmd(args)),
+        Some("c16-gen") => {
+            let data: Vec<u32> = args[1..].iter().filter_map(|a| a.parse().ok()).collect();
+            let c = case_from_tape(&Tape { data });
+            for (i, f) in c.files.iter().enumerate() {
+                println!("--- file {i}\n{f}");
+            }
+            println!(
+                "--- rename {:?} ({}/{}) file {} offset {} -> {:?} [{}] occ={} files={}",
+                c.old_name, c.kind, c.role, c.file, c.offset, c.new_name, c.name_class, c.n_occ, c.n_files
+            );
+            let mut p = Probe::default();
+            let r = check_case(&c, &mut p, &|_| true);
+            println!("labels: {:?}\nexcluded: {:?}\nresult: {r:?}", p.labels, p.excluded);
+            Some(0)
+        }
+        _ => None,
+    }
+}
+
+/// `tpv c16-at <file-index> <offset> <new-name> <file.st>...`: brief report.
+fn at_cmd(args: &[String]) -> i32 {
+    let fi: usize = args[1].parse().unwrap_or(0);
+    let offset: usize = args[2].parse().unwrap_or(0);
+    let new_name = &args[3];
+    let files: Vec<String> = args[4..].iter().map(|p| std::fs::read_to_string(p).unwrap()).collect();
+    let line_of = |f: &str, at: usize| -> String {
+        let ls = f[..at.min(f.len())].rfind('\n').map(|i| i + 1).unwrap_or(0);
+        let le = f[at.min(f.len())..].find('\n').map(|i| i + at).unwrap_or(f.len());
+        f[ls..le].trim().to_string()
+    };
+    let mut toks = core::ident_tokens(&files[fi]);
+    toks.extend(core::prefix_tokens(&files[fi]));
+    let old = toks.iter().find(|(s, e)| *s <= offset && offset < *e).map(|(s, e)| files[fi][*s..*e].to_string()).unwrap_or_default();
+    let d0 = core::diagnostics(&files);
+    let Some(edits) = core::do_rename(&files, fi, offset, new_name) else {
+        println!("  REFUSED");
+        return 0;
+    };
+    for (f, l) in &edits {
+        for e in l {
+            println!("  edit file {f} {}..{}: {}", e.start, e.end, line_of(&files[*f], e.start));
+        }
+    }
+    if let Err(e) = core::check_edits(&files, &edits, &old, new_name) {
+        println!("  EDITS MALFORMED: {e}");
+        return 1;
+    }
+    let (nf, shifted) = core::apply_edits(&files, &edits, fi, offset);
+    let d1 = core::diagnostics(&nf);
+    for d in &d1 {
+        if !d0.iter().any(|x| x.code == d.code && x.file == d.file && x.message == d.message) {
+            println!("  NEW DIAG file {} {} {}: {} | {}", d.file, d.severity, d.code, d.message, line_of(&nf[d.file], d.start));
+        }
+    }
+    for d in &d0 {
+        if !d1.iter().any(|x| x.code == d.code && x.file == d.file && x.message == d.message) {
+            println!("  GONE DIAG file {} {} {}: {} | {}", d.file, d.severity, d.code, d.message, line_of(&files[d.file], d.start));
+        }
+    }
+    let trace: core::Trace = vec![(1, 2, false), (3, 4, true), (5, 6, false), (7, 8, true)];
+    match (core::execute(&files, &trace), core::execute(&nf, &trace)) {
+        (Ok(a), Ok(b)) => match core::compare_runs(&a, &b, &old, new_name) {
+            Ok(()) => println!("  behaviour: same"),
+            Err(e) => println!("  BEHAVIOUR: {e}"),
+        },
+        (a, b) => println!("  compile: original {:?}, renamed {:?}", a.err(), b.err()),
+    }
+    match core::do_rename(&nf, fi, shifted, &old) {
+        None => println!("  rename back: REFUSED"),
+        Some(back) => {
+            for (f, l) in &back {
+                for e in l {
+                    println!("  back edit file {f} {}..{}: {}", e.start, e.end, line_of(&nf[*f], e.start));
+                }
+            }
+            if let Err(e) = core::check_edits(&nf, &back, new_name, &old) {
+                println!("  rename back: EDITS MALFORMED: {e}");
+            } else {
+                let (bf, _) = core::apply_edits(&nf, &back, fi, shifted);
+                println!("  rename back restores: {}", bf == files);
+            }
+        }
+    }
+    0
+}
+
+/// `tpv c16-mkcase <new-name> <file-index> <needle> <nth> <file.st>...` prints a replay case
+/// (kind/role "replay", no model roles: the full oracle runs on it).
+fn mkcase_cmd(args: &[String]) -> i32 {
+    let new_name = &args[1];
+    let fi: usize = args[2].parse().unwrap_or(0);
+    let needle = &args[3];
+    let nth: usize = args[4].parse().unwrap_or(0);
+    let files: Vec<String> = args[5..].iter().map(|p| std::fs::read_to_string(p).unwrap()).collect();
+    let offset = files[fi].match_indices(needle.as_str()).nth(nth).map(|(i, _)| i).expect("needle not found");
+    let old: String = files[fi][offset..].chars().take_while(|c| c.is_ascii_alphanumeric() || *c == '_').collect();
+    let c = Case {
+        files,
+        file: fi,
+        offset,
+        old_name: old.clone(),
+        decl_name: old,
+        new_name: new_name.clone(),
+        name_class: "replay".into(),
+        trace: vec![(1, 2, false), (3, 4, true), (5, 6, false), (7, 8, true)],
+        kind: "replay".into(),
+        role: "replay".into(),
+        roles: vec![],
+        n_occ: 2,
+        n_files: 1,
+        new_name_exists: false,
+        case_variants: false,
+        config_names: vec![],
+        function_names: vec![],
+        instance_names: vec![],
+        gen_excluded: vec![],
+        owner_name: String::new(),
+        member_names: vec![],
+    };
+    println!("{}", serde_json::to_string_pretty(&c).unwrap());
+    0
+}
+
+fn probe_cmd(args: &[String]) -> i32 {
+    if args.len() < 6 {
+        eprintln!("usage: tpv c16-probe <new-name> <file-index> <needle> <nth> <file.st>...");
+        return 2;
+    }
+    let new_name = &args[1];
+    let fi: usize = args[2].parse().unwrap_or(0);
+    let needle = &args[3];
+    let nth: usize = args[4].parse().unwrap_or(0);
+    let files: Vec<String> = args[5..]
+        .iter()
+        .map(|p| std::fs::read_to_string(p).unwrap_or_else(|e| panic!("{p}: {e}")))
+        .collect();
+    let offset = files[fi]
+        .match_indices(needle.as_str())
+        .nth(nth)
+        .map(|(i, _)| i)
+        .expect("needle not found");
+    let d0 = core::diagnostics(&files);
+    println!("--- original diagnostics: {}", d0.len());
+    for d in &d0 {
+        println!("  {d:?}");
+    }
+    let trace: core::Trace = vec![(1, 2, false), (3, 4, true), (5, 6, false), (7, 8, true)];
+    let r0 = core::execute(&files, &trace);
+    match &r0 {
+        Ok(r) => {
+            println!("--- original run: errors {:?}", r.errors);
+            println!("  final state: {:?}", r.states.last());
+        }
+        Err(e) => println!("--- original does not compile: {e}"),
+    }
+    let old: String = files[fi][offset..]
+        .chars()
+        .take_while(|c| c.is_ascii_alphanumeric() || *c == '_')
+        .collect();
+    println!("--- rename {old:?} at file {fi} offset {offset} -> {new_name:?}");
+    let Some(edits) = core::do_rename(&files, fi, offset, new_name) else {
+        println!("REFUSED");
+        return 0;
+    };
+    for (f, l) in &edits {
+        for e in l {
+            println!(
+                "  file {f}: {}..{} {:?} -> {:?}",
+                e.start,
+                e.end,
+                &files[*f][e.start..e.end.min(files[*f].len())],
+                e.text
+            );
+        }
+    }
+    if let Err(e) = core::check_edits(&files, &edits, &old, new_name) {
+        println!("EDITS MALFORMED: {e}");
+        return 1;
+    }
+    let (nf, shifted) = core::apply_edits(&files, &edits, fi, offset);
+    for (i, f) in nf.iter().enumerate() {
+        println!("--- new file {i}:\n{f}");
+    }
+    let d1 = core::diagnostics(&nf);
+    println!("--- new diagnostics: {}", d1.len());
+    for d in &d1 {
+        println!("  {d:?}");
+    }
+    match core::compare_diags(&files, &d0, &nf, &d1, &old, new_name) {
+        Ok(()) => println!("diagnostics: same"),
+        Err(e) => println!("DIAG: {e}"),
+    }
+    match (r0, core::execute(&nf, &trace)) {
+        (Ok(a), Ok(b)) => match core::compare_runs(&a, &b, &old, new_name) {
+            Ok(()) => println!("behaviour: same"),
+            Err(e) => println!("BEHAVIOUR: {e}"),
+        },
+        (a, b) => println!("compile: original {:?}, renamed {:?}", a.err(), b.err()),
+    }
+    match core::do_rename(&nf, fi, shifted, &old) {
+        None => println!("rename back: REFUSED"),
+        Some(back) => {
+            if let Err(e) = core::check_edits(&nf, &back, new_name, &old) {
+                println!("rename back: EDITS MALFORMED: {e}");
+            } else {
+                let (bf, _) = core::apply_edits(&nf, &back, fi, shifted);
+                println!("rename back restores: {}", bf == files);
+            }
+        }
+    }
+    0
 }
 
 fn run(ctx: &mut RunCtx) {
-    ctx.inconclusive("check not built yet");
+    let tier = ctx.tier;
+    // a key is open only if no entry for it says "fixed" (the merged known_findings.json
+    // may lag behind the per-property fragment)
+    let fixed_keys: Vec<String> =
+        ctx.findings.iter().filter(|f| f.status == "fixed").map(|f| f.key.clone()).collect();
+    let open_keys: Vec<String> = ctx
+        .findings
+        .iter()
+        .filter(|f| f.status == "open" && !fixed_keys.contains(&f.key))
+        .map(|f| f.key.clone())
+        .collect();
+    let open = move |k: &str| open_keys.iter().any(|x| x == k);
+    ctx.search(
+        "rename",
+        tape_strategy(700).prop_map(|t| case_from_tape(&t)),
+        tier.pick(3000, 100_000),
+        |c: &Case, p| check_case(c, p, &open),
+    );
 }
